@@ -111,6 +111,7 @@ type VC struct {
 	defers   []*ssa.Defer        // captproj.go (x-c17): deferred contracted literals, in registration order
 	noFacts int // >0 while evaluating under a specification quantifier: emit no ground facts
 	lastShape   map[string]SV                   // effects.go: shapes of the arguments recorded for lastcall()
+	inlining    int                             // tolerant.go: >0 while a contract-less leaf helper is executed in place
 	hdr         map[*ssa.BasicBlock]*headerSnap // effects.go: state at loop headers (for prev())
 	iterChecked map[*Clause]bool                 // effects.go: `loop k ensures` clauses checked at some back edge
 }
